@@ -54,6 +54,8 @@ static size_t image_size;
 static uint64_t refs[2048];
 static size_t nrefs;
 static uint32_t xidx[2048];
+static uint64_t dirrefs[2048];      /* the directories among refs[]: their references are what a DOT_ENTRIES reader caches */
+static size_t ndirrefs;
 static char image_path[4096];
 
 typedef struct { uint32_t op, a, b; } step_t;
@@ -241,15 +243,26 @@ static uint64_t dr_apply(void *obj, const step_t *st)
 	sqfs_dir_reader_t *d = obj;
 	sqfs_inode_generic_t *ino = NULL;
 	uint64_t h = H0, ref = nrefs ? refs[st->a % nrefs] : 0;
+	if (ndirrefs && (st->a >> 12) % 2)
+		ref = dirrefs[st->a % ndirrefs];
 	int rc = sqfs_dir_reader_get_inode(d, ref, &ino);
 	h = Hu(h, (uint64_t)(int64_t)rc);
 	if (rc)
 		return h;
 	h = H(h, &ino->base, sizeof(ino->base));
+	if (dr_flags & SQFS_DIR_READER_DOT_ENTRIES) {
+		/* what the reader remembered about directories it has seen: observable through inode number lookups and "." / ".."
+		   (copy and twin share one history, so the documented history dependence of this cache is the same on both sides) */
+		sqfs_u64 out = 0;
+		int r3 = sqfs_dir_reader_resolve_inum(d, ino->base.inode_number, &out);
+		h = Hu(h, (uint64_t)(int64_t)r3);
+		if (r3 == 0)
+			h = Hu(h, out);
+	}
 	if (st->op % 2 == 0 && (ino->base.type == SQFS_INODE_DIR || ino->base.type == SQFS_INODE_EXT_DIR)) {
 		sqfs_dir_reader_state_t s;
 		sqfs_dir_node_t *ent;
-		rc = sqfs_dir_reader_open_dir(d, ino, &s, SQFS_DIR_OPEN_NO_DOT_ENTRIES);
+		rc = sqfs_dir_reader_open_dir(d, ino, &s, ((dr_flags & SQFS_DIR_READER_DOT_ENTRIES) && st->op % 4 == 0) ? 0 : SQFS_DIR_OPEN_NO_DOT_ENTRIES);
 		h = Hu(h, (uint64_t)(int64_t)rc);
 		for (uint32_t i = 0; rc == 0 && i < 1 + st->b % 20; i++) {
 			int r2 = sqfs_dir_reader_read(d, &s, &ent);
@@ -633,6 +646,8 @@ int main(int argc, char **argv)
 				continue;
 			xidx[i] = 0xFFFFFFFF;
 			sqfs_inode_get_xattr_index(ino, &xidx[i]);
+			if ((ino->base.type == SQFS_INODE_DIR || ino->base.type == SQFS_INODE_EXT_DIR) && ndirrefs < 2048)
+				dirrefs[ndirrefs++] = refs[i];
 			if ((ino->base.type == SQFS_INODE_DIR || ino->base.type == SQFS_INODE_EXT_DIR) && sqfs_dir_reader_open_dir(d, ino, &s, 0) == 0) {
 				while (nrefs < 2000 && sqfs_dir_reader_read(d, &s, &ent) == 0) {
 					refs[nrefs++] = s.ent_ref;
